@@ -294,7 +294,18 @@ def catalogue(feat, text, facts):
     # malformed tag token directly before an element (its first tag line or its keyword line)
     for item in [facts] + list(_iter_all(facts)):
         first = min([item["line"]] + [ln for _t, ln in item.get("tags", [])])
-        yield "malformed-tag", first - 1, u"  @good bad @other", first
+        yield "malformed-tag", first - 1, BAD_TAG_LINES[first % len(BAD_TAG_LINES)], first
+
+
+# a token without '@' on a tag line -- on a short and on a LONG line (the line is echoed in the message), with and
+# without a colon inside the token (a ticket reference, a truncated "Scenario: x")
+BAD_TAG_LINES = [
+    u"  @good bad @other",
+    u"  @regression @customer_portal @account_settings @notification_preferences slow.running @nightly @wip",
+    u"  @smoke issue:1234",
+    u"  @t1 @t2 @t3 @t4 @t5 @t6 @t7 @t8 @t9 @t10 @t11 @t12 @t13 Scenario: forgot the line break @t14",
+    u"  @" + u"x" * 130 + u" y",
+]
 
 
 def _after_header(fact):
@@ -356,6 +367,12 @@ def check_catalogue(res, case):
         if len(res.violations) > before and only is None:
             for v in res.violations[before:]:
                 v.detail = "catalogue #%d: %s" % (idx, v.detail)
+    # the malformed tag lines through the parse_tags() entry point, alone and as the last of several tag lines
+    for k, bad in enumerate(BAD_TAG_LINES):
+        probe(res, "tags", bad + u"\n", None, expect_line=1, fault="malformed-tag")
+        probe(res, "tags", u"@one @two\n\n" + bad.strip() + u"\n", None, expect_line=3, fault="malformed-tag")
+        count += 2
+    res.label("entry:tags:malformed-tag")
     # doc-string / table before any step (parse_steps entry, line 1)
     for fault, first in (("docstring-before-step", u'"""\ntext\n"""\n'), ("table-before-step", u"| a |\n| 1 |\n")):
         probe(res, "steps", first + u"Given a step\n", feat.get("lang"), expect_line=1, fault=fault)
